@@ -374,6 +374,10 @@ func (ps *pipeScenario) run(c *vk.Case, o runOpts) *pipeRun {
 			fr := vk.TopShovelFrame(res.Panic)
 			c.Violate(o.KP+"panic:"+fr, merge(detail, map[string]any{"panic": firstLines(res.Panic, 30)}), "Converge panicked in %s: %s", fr, firstLines(res.Panic, 1))
 		}
+		if n := len(res.Served); n > 40*(ps.Batch+ps.Conc+8) {
+			// counted work, not wall-clock: one step over at most batch blocks needs a handful of requests per unwind
+			c.Violate(o.KP+"runaway-step", merge(detail, map[string]any{"requests": n, "err": fmt.Sprint(res.Err)}), "one step issued %d JSON-RPC requests (batch %d): it does not make progress", n, ps.Batch)
+		}
 		for _, rec := range res.Commits {
 			if rec.Aborted || len(rec.Tx.Effects) == 0 {
 				continue
